@@ -729,13 +729,16 @@ var mul64 = []*instructionType{
 			r1Abs := exprtools.Abs(r1, width64)
 			mul := expr.NewBinary(expr.Mul, r1Abs, r2, width128)
 			shift := expr.ConstFromUint[uint8](64)
-			shifted := expr.NewBinary(expr.Rsh, mul, shift, width128)
-			val := exprtools.BoolCond(
+			// The product is negative iff r1 is negative. The whole
+			// product has to be negated before its upper half is taken.
+			signedMul := exprtools.BoolCond(
 				exprtools.IntNegative(r1, width64),
-				shifted,
-				exprtools.Negate(shifted, width64),
-				width64,
+				exprtools.Negate(mul, width128),
+				mul,
+				width128,
 			)
+			shifted := expr.NewBinary(expr.Rsh, signedMul, shift, width128)
+			val := exprtools.NewWidthGadget(shifted, width64)
 			return []expr.Effect{regStore(val, i, width64)}
 		},
 	}, {
